@@ -32,6 +32,10 @@ func RemoveKnownPathMapping(pathname string) {
 // ResetKnownPathMapping _
 func ResetKnownPathMapping() {
 	clear(knownPathMap) // just for go1.21+
+	// restore the builtin mappings like the other ResetXXX do, otherwise
+	// the home directory would be disclosed from now on.
+	knownPathMap[homeDir] = "~"
+	knownPathMap[currDir] = "."
 }
 
 // AddKnownPathRegexpMapping adds regexp pattern, repl pair to reduce the called filepath width.
